@@ -2,27 +2,33 @@ RUNNER = {"pkg": "./vflow", "test": "TestVerifPipeline", "race": False}
 
 SPEC = {
     "corr": [{"kind": "pipeline", "quick": 160, "thorough": 6400, "runner": RUNNER},
+             # NetFlow v5 Decode alone: a message is never handed out together with an error (the worker counts `decodedMsg != nil`): F29
+             {"kind": "nf5", "quick": 4000, "thorough": 200000},
              # a stalling consumer: the queue fills, publishes are dropped by the non-blocking enqueue, the consumer recovers;
              # still every datagram counted once, nothing published twice, every payload the solo JSON of one datagram
              {"kind": "pipeline", "label": "pipeline-stall", "seed_offset": 53, "quick": 16, "thorough": 600, "model": False,
               "runner": RUNNER, "env": {"VERIF_PIPE_STALL": "1"}}],
     "search_factor": 2,
     "rule": "a case = protocol (ipfix/v9/v5/sflow) x 1..64 real worker goroutines x 20..2000 datagrams (about 70 % yield a "
-            "message, the rest template-less / undecodable / malformed / marshal-failing) sent over loopback UDP through the real "
+            "message, the rest template-less / undecodable / malformed / marshal-failing; NetFlow v5: 6 % with the last record 1..47 "
+            "octets short and 6 % cut anywhere - class x, Decode fails, must not be counted: F29) sent over loopback UDP through the real "
             "read loop (so UDPCount is the real counter), pools, channels and worker functions, < 400 in flight, MQ drained; "
             "implementation line = UDPCount / DecodedCount deltas and number of messages taken from the MQ channel, compared with "
             "the model's run of the extracted worker program; non-trivial = every case; distinct = distinct case line",
     "assumptions": ["sync.Pool, channels and goroutine scheduling as atomic steps of Vflow.Model.Pipeline",
                     "the MQ channel never fills during the runs (the property's premise; the hook keeps < 400 datagrams in flight)",
                     "the per-datagram outcome class (no message / no data / marshal error / yields) is computed by the generator "
-                    "with the real solo decode and re-checked by the hook"],
+                    "with the real solo decode and re-checked by the hook; for ipfix / v9 'no message' is the code's `msg == nil`, for v5 - "
+                    "which has no partially decodable datagram - it is the property's 'Decode reports an error' (since F29)"],
 }
 META = {
     "text": "Lean theorems over every number of workers, every datagram sequence and every schedule, for every Canonical worker "
             "program: every received datagram is in exactly one place (read loop, UDP channel, one worker, finished); exactly one "
             "countUDP; at most one decode, one countDecoded, one publish attempt at any time; when its iteration is over exactly one "
             "countDecoded iff its decode counts by the code's own notion (ipfix/v9/v5: a message was returned; sFlow: decoded, has a "
-            "sample, marshals) and exactly one publish attempt iff it has data and marshals; an attempt is `published` iff the MQ "
+            "sample, marshals; for NetFlow v5 that is 'decodes successfully' - v5_counted_iff_decodes: counted iff version 5, count in "
+            "1..30 and all 24+48*count octets present, with C08.decode_ok_iff; before the F29 repair a datagram shorter than announced "
+            "came back as a message together with the error and was counted) and exactly one publish attempt iff it has data and marshals; an attempt is `published` iff the MQ "
             "channel had room at that step; every published payload is the solo result of a received datagram; at quiescence with "
             "no drop the published messages are exactly the solo results of the yielding datagrams, one each. Worker and read loops "
             "are re-extracted from vflow/*.go on every run and must be Canonical (decide; after the read loop only the close of the "
